@@ -307,3 +307,46 @@ pub fn run(seed: u64, tier: &str, out: &mut Out) {
     for _ in 0..n / 4 { let (c, v) = iter_modes_case(&mut rng); out.emit(&format!("NOMODEL {c}"), &format!(" ORACLE {v}")); }
     for _ in 0..n / 40 { let (c, v) = rayon_case(&mut rng); out.emit(&format!("NOMODEL {c}"), &format!(" ORACLE {v}")); }
 }
+
+/// C04 (iterator-driven completion): whichever `Iterator` method drives a wrapped iterator to its end (also the
+/// ones with their own provided implementation: `nth`, `step_by`, `skip`, `fold`-based consumers), the bar is
+/// finished by its configured behaviour and the final state is painted - checked with a second handle kept alive,
+/// so that dropping the wrapper cannot hide a missing finish.
+pub fn run_finish_modes(seed: u64, tier: &str, out: &mut Out) {
+    let mut rng = Rng::new(seed ^ 0xC041);
+    let cases = if tier == "thorough" { 20_000 } else { 600 };
+    for _ in 0..cases {
+        let n = rng.below(12) as usize;
+        let k = rng.range(1, 5) as usize;
+        let mode = rng.below(10);
+        let name = ["collect", "step_by", "skip", "last", "count", "sum", "for_each", "rev", "nth-loop", "nth-past-end"][mode as usize];
+        let fin = rng.below(5);
+        let finish = match fin { 0 => ProgressFinish::AndLeave, 1 => ProgressFinish::AndClear, 2 => ProgressFinish::Abandon, 3 => ProgressFinish::WithMessage("done".into()), _ => ProgressFinish::AbandonWithMessage("gone".into()) };
+        let rec = crate::common::Recorder::new(6, 40, true);
+        let pb = ProgressBar::with_draw_target(Some(n as u64 + 3), ProgressDrawTarget::term_like(Box::new(rec.clone()))).with_finish(finish);
+        pb.set_style(indicatif::ProgressStyle::with_template("{prefix}{pos}/{len} {msg}").unwrap());
+        let keep = pb.clone();
+        let it = pb.wrap_iter(0..n);
+        match mode {
+            0 => { let _: Vec<usize> = it.collect(); }
+            1 => { let _: Vec<usize> = it.step_by(k).collect(); }
+            2 => { let _: Vec<usize> = it.skip(k).collect(); }
+            3 => { let _ = it.last(); }
+            4 => { let _ = it.count(); }
+            5 => { let _: usize = it.sum(); }
+            6 => { it.for_each(|_| {}); }
+            7 => { let _: Vec<usize> = it.rev().collect(); }
+            8 => { let mut it = it; while it.nth(k - 1).is_some() {} }
+            _ => { let mut it = it; let _ = it.nth(n + k); }
+        }
+        let rows = rec.rows();
+        let (pos, len, msg) = (keep.position(), keep.length().unwrap_or(0), keep.message());
+        let want_row = format!("{pos}/{len} {msg}").trim_end().to_string();
+        let verdict = if !keep.is_finished() { format!("FAIL not-finished after {name}({k}) over {n} items ran to the end (finish kind {fin})") }
+            else if fin == 1 { if rows.iter().any(|r| !r.is_empty()) { format!("FAIL final-frame finish_and_clear left {rows:?} after {name}") } else { "ok".into() } }
+            else if (fin == 0 || fin == 3) && pos != len { format!("FAIL final-state position {pos} of {len} after {name} with a finishing behaviour") }
+            else if rows.last().map(|r| r.as_str()) != Some(want_row.as_str()) { format!("FAIL final-frame after {name}({k}) over {n}: screen {rows:?}, final state {want_row:?}") } else { "ok".into() };
+        drop(keep);
+        out.emit(&format!("NOMODEL FINISHMODE {name} k={k} n={n} fin={fin}"), &format!(" ORACLE {verdict}"));
+    }
+}
